@@ -1,4 +1,5 @@
 import StepModel.P21.ReaderLemmas2
+import StepModel.P21.LexNumber
 /-! Aggregates of simple kinds at the literal level (C09; shared with C01): `STEPaggregate::ReadValue` — the model
 `aggrRead` / `aggrLoop` / `elemRead` of `P21/Reader.lean` — on `( e₁ , … , eₙ )` for *any* element kind whose element
 reader accepts its tokens, any layout (blanks, comments) around every element; the empty aggregate; and the element
@@ -22,7 +23,7 @@ structure ElemQ (F : Type) where
     follows.  `f` is what the reader does to the stream's `skipws` flag (`SDAI_String::STEPread` leaves it switched off).
     The layout in front of the token is the loop's business (`ElemReads.full`). -/
 def ElemReads (env : Env F) (ty : ElemTy) (f : Bool → Bool) (e : ElemQ F) : Prop :=
-  Seps e.before ∧ (∃ c u, e.tok = c :: u ∧ isSpace c = false ∧ c ≠ 47 ∧ c ≠ 41) ∧
+  Seps e.before ∧ (∃ c u, e.tok = c :: u ∧ isSpace c = false ∧ c ≠ 47 ∧ c ≠ 41 ∧ c ≠ 44) ∧
   ∀ (l : List Byte) (sk : Bool) (d : Byte) (rest : List Byte), (d = 44 ∨ d = 41) →
     elemRead env ty (G l (e.tok ++ (e.after ++ d :: rest)) sk) =
       .ok (.null, e.val, G (e.after.reverse ++ (e.tok.reverse ++ l)) (d :: rest) (f sk))
@@ -39,7 +40,7 @@ theorem ElemReads.full {env : Env F} {ty : ElemTy} {f : Bool → Bool} {e : Elem
     (hagg : env.cfg.aggrSkipsComments = true) (l : List Byte) (sk : Bool) (d : Byte) (rest : List Byte) (hd : d = 44 ∨ d = 41) :
     elemRead env ty (G l (e.before ++ (e.tok ++ (e.after ++ d :: rest))) sk) =
       .ok (.null, e.val, G (e.after.reverse ++ (e.tok.reverse ++ (e.before.reverse ++ l))) (d :: rest) (f sk)) := by
-  obtain ⟨hb, ⟨c0, u0, hcu, hcs, h47, _⟩, hread⟩ := h
+  obtain ⟨hb, ⟨c0, u0, hcu, hcs, h47, _, _⟩, hread⟩ := h
   have hsk : readTokenSeparator (G l (e.before ++ (e.tok ++ (e.after ++ d :: rest))) sk) =
       G (e.before.reverse ++ l) (e.tok ++ (e.after ++ d :: rest)) sk := by
     rw [hcu]; exact readTokenSeparator_seps e.before hb l c0 _ sk hcs h47
@@ -144,12 +145,12 @@ theorem aggrRead_elems (env : Env F) (hagg : env.cfg.aggrSkipsComments = true) (
   cases es with
   | nil => exact absurd rfl hne
   | cons e fs =>
-    obtain ⟨hb, ⟨c0, u0, hcu, hcs, h47, h41⟩, hread⟩ := hok e (by simp)
+    obtain ⟨hb, ⟨c0, u0, hcu, hcs, h47, h41, h44⟩, hread⟩ := hok e (by simp)
     let e' : ElemQ F := { e with before := [] }
     have hok' : ∀ x ∈ e' :: fs, ElemReads env ty f x := by
       intro x hx
       rcases List.mem_cons.mp hx with rfl | hx
-      · exact ⟨Seps.blanks [] (by simp), ⟨c0, u0, hcu, hcs, h47, h41⟩, hread⟩
+      · exact ⟨Seps.blanks [] (by simp), ⟨c0, u0, hcu, hcs, h47, h41, h44⟩, hread⟩
       · exact hok x (by simp [hx])
     have htokne : ∀ x ∈ e' :: fs, x.tok ≠ [] := by
       intro x hx
@@ -216,18 +217,49 @@ theorem rts_none (l : List Byte) (c : Byte) (u : List Byte) (sk : Bool) (hc : is
   have := readTokenSeparator_seps [] (Seps.blanks [] (by simp)) l c u sk hc h47
   simpa using this
 
-/-- the element reader of a kind read by a scalar node: the node's reader, then the loop's `CheckRemainingInput` -/
+/-- in front of a character that is no delimiter the "missing element" test of the repaired loop says no (and without the
+    repair there is no test) -/
+theorem elemMissing_none (cfg : RWCfg) (l : List Byte) (c : Byte) (u : List Byte) (sk : Bool) (h44 : c ≠ 44) (h41 : c ≠ 41) :
+    elemMissing cfg (G l (c :: u) sk) = (false, G l (c :: u) sk) := by
+  unfold elemMissing
+  split
+  · rw [show (G l (c :: u) sk).peekC = (c, G l (c :: u) sk) from peekC_good l c u sk]
+    simp [h44, h41]
+  · rfl
+
+/-- the element reader of a kind read by a scalar node, started at a character that is neither blank, `/` nor a delimiter:
+    the node's reader, then the loop's `CheckRemainingInput` (NUMBER: when its elements are read by `ReadReal`) -/
 theorem elemRead_scalar (env : Env F) (hagg : env.cfg.aggrSkipsComments = true) (ty : ElemTy) (hk : ty.kind?.isSome = true)
-    (s s1 : IStream) (e : Sev) (a : Atom F) (hs0 : readTokenSeparator s = s)
-    (hsc : scalarNodeRead env ty s = .ok (e, a, s1)) :
-    elemRead env ty s =
+    (hnum : ty = .number → env.cfg.numberElemReadsNumber = false)
+    (l : List Byte) (c : Byte) (u : List Byte) (sk : Bool) (hc : isSpace c = false) (h47 : c ≠ 47) (h44 : c ≠ 44) (h41 : c ≠ 41)
+    (s1 : IStream) (e : Sev) (a : Atom F)
+    (hsc : scalarNodeRead env ty (G l (c :: u) sk) = .ok (e, a, s1)) :
+    elemRead env ty (G l (c :: u) sk) =
       .ok ((checkRemainingInput env.lex (some attrDelims) s1 e).2, .atom a, (checkRemainingInput env.lex (some attrDelims) s1 e).1) := by
   unfold elemRead
-  simp only [hagg, if_true, hs0]
+  simp only [hagg, if_true, rts_none l c u sk hc h47,
+    elemMissing_none env.cfg l c u sk h44 h41, bind, Except.bind]
+  unfold elemReadCore
   cases ty with
   | select n => simp [ElemTy.kind?] at hk
   | generic => simp [ElemTy.kind?] at hk
-  | _ => simp only [hsc, bind, Except.bind, pure, Except.pure]
+  | number => simp [hnum rfl, hsc, bind, Except.bind, pure, Except.pure]
+  | _ => simp [hsc, bind, Except.bind, pure, Except.pure]
+
+/-- NUMBER elements when the repaired `RealAggregate::ReadValue` reads them with `ReadNumber` -/
+theorem elemRead_number (env : Env F) (hagg : env.cfg.aggrSkipsComments = true) (hnum : env.cfg.numberElemReadsNumber = true)
+    (l : List Byte) (c : Byte) (u : List Byte) (sk : Bool) (hc : isSpace c = false) (h47 : c ≠ 47) (h44 : c ≠ 44) (h41 : c ≠ 41) :
+    elemRead env .number (G l (c :: u) sk) =
+      .ok ((checkRemainingInput env.lex (some attrDelims) (readNumber env.ops env.lex (some attrDelims) (G l (c :: u) sk) .null).2.1
+              (readNumber env.ops env.lex (some attrDelims) (G l (c :: u) sk) .null).2.2).2,
+           .atom (valueToAtom (realValue env.ops (readNumber env.ops env.lex (some attrDelims) (G l (c :: u) sk) .null).1)),
+           (checkRemainingInput env.lex (some attrDelims) (readNumber env.ops env.lex (some attrDelims) (G l (c :: u) sk) .null).2.1
+              (readNumber env.ops env.lex (some attrDelims) (G l (c :: u) sk) .null).2.2).1) := by
+  unfold elemRead
+  simp only [hagg, if_true, rts_none l c u sk hc h47,
+    elemMissing_none env.cfg l c u sk h44 h41, bind, Except.bind]
+  unfold elemReadCore
+  simp [hnum, pure, Except.pure]
 
 /-- the loop's `CheckRemainingInput` on a stream that already rests at the delimiter -/
 theorem cri_at_delim (lex : LexCfg) (hcfg : lex.criSkipsComments = true) (l rest : List Byte) (d : Byte) (sk : Bool)
@@ -242,20 +274,26 @@ theorem ElemReads.integer (env : Env F) (hcfg : env.lex.criSkipsComments = true)
     (hhi : denoteInteger tok < longMax) (hb : Seps before) (ha : Seps after) :
     ElemReads env .integer id ⟨tok, before, after, .atom (.int (denoteInteger tok))⟩ := by
   obtain ⟨c, u, hcu, hcs, h47, h41⟩ := isInteger_head47 tok htok
-  refine ⟨hb, ⟨c, u, hcu, hcs, h47, h41⟩, ?_⟩
+  have h44 : c ≠ 44 := by obtain ⟨c', u', h', _, _, h44', _⟩ := isInteger_head tok htok; rw [hcu] at h'; cases h'; exact h44'
+  refine ⟨hb, ⟨c, u, hcu, hcs, h47, h41, h44⟩, ?_⟩
   intro l sk d rest hd
-  have hs0 : readTokenSeparator (G l (tok ++ (after ++ d :: rest)) sk) = G l (tok ++ (after ++ d :: rest)) sk := by
-    rw [hcu]; exact rts_none l c _ sk hcs h47
   have h3 : (denoteInteger tok == longMax) = false := by simp; omega
-  rw [elemRead_scalar env hagg .integer rfl _ _ _ _ hs0
-    (by rw [scalarNodeRead_integer, readInteger_tok env.lex hcfg tok htok hlo (by omega) l sk after ha d rest hd])]
+  have hsc : scalarNodeRead env .integer (G l (c :: (u ++ (after ++ d :: rest))) sk) =
+      .ok (.null, valueToAtom (intValue (some (denoteInteger tok)) : Value F), G (after.reverse ++ (tok.reverse ++ l)) (d :: rest) sk) := by
+    rw [scalarNodeRead_integer]
+    have := readInteger_tok env.lex hcfg tok htok hlo (by omega) l sk after ha d rest hd
+    rw [hcu] at this
+    simp only [List.cons_append] at this
+    rw [this, hcu]
+  simp only [hcu, List.cons_append]
+  rw [elemRead_scalar env hagg .integer rfl (by intro h; cases h) l c _ sk hcs h47 h44 h41 _ _ _ hsc]
   simp only [cri_at_delim env.lex hcfg _ rest d sk hd]
-  simp [intValue, h3, valueToAtom]
+  simp [intValue, ← hcu, h3, valueToAtom]
 
-/-- REAL and NUMBER elements (both are `RealNode`s read by `ReadReal`): every token of the grammar `real` whose denotation
-    converts to a double other than the in-band null -/
+/-- REAL elements, and NUMBER elements while they are read by `ReadReal` like them: every token of the grammar `real` whose
+    denotation converts to a double other than the in-band null -/
 theorem ElemReads.real (env : Env F) (hcfg : env.lex.criSkipsComments = true) (hagg : env.cfg.aggrSkipsComments = true)
-    (ty : ElemTy) (hty : ty = .real ∨ ty = .number)
+    (ty : ElemTy) (hty : ty = .real ∨ (ty = .number ∧ env.cfg.numberElemReadsNumber = false))
     (tok before after : List Byte) (dec : Decimal) (v : F) (htok : isReal tok = true) (hden : denoteReal tok = some dec)
     (hv : env.ops.ofDecimal dec = some v) (hnn : env.ops.isRealNull v = false)
     (hbuf : env.lex.realBuf = 0 ∨ tok.length < env.lex.realBuf) (hb : Seps before) (ha : Seps after) :
@@ -263,34 +301,133 @@ theorem ElemReads.real (env : Env F) (hcfg : env.lex.criSkipsComments = true) (h
   obtain ⟨c, u, hcu, hcs, h47⟩ := isReal_head tok htok
   have h41 : c ≠ 41 := by
     intro h; subst h; rw [hcu] at htok; revert htok; simp [isReal, splitSign, takeDigits, isDigit]
-  refine ⟨hb, ⟨c, u, hcu, hcs, h47, h41⟩, ?_⟩
+  have h44 : c ≠ 44 := by
+    intro h; subst h; rw [hcu] at htok; revert htok; simp [isReal, splitSign, takeDigits, isDigit]
+  refine ⟨hb, ⟨c, u, hcu, hcs, h47, h41, h44⟩, ?_⟩
   intro l sk d rest hd
-  have hs0 : readTokenSeparator (G l (tok ++ (after ++ d :: rest)) sk) = G l (tok ++ (after ++ d :: rest)) sk := by
-    rw [hcu]; exact rts_none l c _ sk hcs h47
-  have hsc : scalarNodeRead env ty (G l (tok ++ (after ++ d :: rest)) sk) =
+  have hsc : scalarNodeRead env ty (G l (c :: (u ++ (after ++ d :: rest))) sk) =
       .ok (.null, valueToAtom (realValue env.ops (some v)), G (after.reverse ++ (tok.reverse ++ l)) (d :: rest) sk) := by
-    rcases hty with rfl | rfl <;>
+    have := readReal_tok env.ops env.lex hcfg tok dec v htok hden hv hbuf l sk after ha d rest hd
+    rw [hcu] at this
+    simp only [List.cons_append] at this
+    rcases hty with rfl | ⟨rfl, _⟩ <;>
     · unfold scalarNodeRead
-      simp only [readReal_tok env.ops env.lex hcfg tok dec v htok hden hv hbuf l sk after ha d rest hd, liftOutcome, bind,
-        Except.bind, pure, Except.pure]
-  rw [elemRead_scalar env hagg ty (by rcases hty with rfl | rfl <;> rfl) _ _ _ _ hs0 hsc]
+      simp only [this, liftOutcome, bind, Except.bind, pure, Except.pure, hcu]
+  simp only [hcu, List.cons_append]
+  rw [elemRead_scalar env hagg ty (by rcases hty with rfl | ⟨rfl, _⟩ <;> rfl)
+    (by intro h; rcases hty with rfl | ⟨_, h2⟩; · cases h
+        · exact h2) l c _ sk hcs h47 h44 h41 _ _ _ hsc]
   simp only [cri_at_delim env.lex hcfg _ rest d sk hd]
-  simp [realValue, hnn, valueToAtom]
+  simp [realValue, hnn, valueToAtom, hcu]
+
+theorem extractFloatText_G (l : List Byte) (c : Byte) (t : List Byte) (sk : Bool) (hc : isSpace c = false) :
+    IStream.extractFloatText (G l (c :: t) sk) =
+      (some (scanFloat l (c :: t)).1,
+       { left := (scanFloat l (c :: t)).2.1, right := (scanFloat l (c :: t)).2.2,
+         eof := (scanFloat l (c :: t)).2.2.isEmpty, fail := false, bad := false, skipws := sk }) := by
+  cases sk <;> simp [IStream.extractFloatText, IStream.sentry, IStream.good, dropSpaces_nonspace _ _ _ hc]
+
+theorem seps_numCont (seps : List Byte) (hs : Seps seps) (d : Byte) (rest : List Byte) (hd : d = 44 ∨ d = 41) :
+    NumCont (seps ++ d :: rest) := by
+  obtain ⟨c, u, h, hc⟩ : ∃ c u, seps ++ d :: rest = c :: u ∧ (isSpace c = true ∨ c = 47 ∨ c = 44 ∨ c = 41) := by
+    cases hs with
+    | blanks _ hsp =>
+      cases seps with
+      | nil => exact ⟨d, rest, rfl, by rcases hd with rfl | rfl <;> simp⟩
+      | cons x sp' => exact ⟨x, sp' ++ d :: rest, rfl, Or.inl (by simp at hsp; exact hsp.1)⟩
+    | comment sp body t hsp hb ht =>
+      cases sp with
+      | nil => exact ⟨47, _, rfl, Or.inr (Or.inl rfl)⟩
+      | cons x sp' => exact ⟨x, _, rfl, Or.inl (by simp at hsp; exact hsp.1)⟩
+  refine Or.inr ⟨c, u, h, ?_, ?_, ?_, ?_⟩
+  · rcases hc with h1 | rfl | rfl | rfl
+    · exact space_not_digit h1
+    · decide
+    · decide
+    · decide
+  · intro e; subst e; rcases hc with h1 | h1 | h1 | h1 <;> revert h1 <;> decide
+  · intro e; subst e; rcases hc with h1 | h1 | h1 | h1 <;> revert h1 <;> decide
+  · intro e; subst e; rcases hc with h1 | h1 | h1 | h1 <;> revert h1 <;> decide
+
+/-- `ReadNumber` on a token of the `integer` or of the `real` grammar whose denotation converts, standing anywhere, followed
+    by any layout and a delimiter: exactly that double, no error, the stream rests at the delimiter -/
+theorem readNumber_tok (ops : FloatOps F) (lex : LexCfg) (hcfg : lex.criSkipsComments = true)
+    (tok : List Byte) (dec : Decimal) (v : F) (htok : isReal tok = true ∨ isInteger tok = true) (hden : denoteReal tok = some dec)
+    (hv : ops.ofDecimal dec = some v)
+    (l : List Byte) (sk : Bool) (seps : List Byte) (hs : Seps seps) (d : Byte) (rest : List Byte) (hd : d = 44 ∨ d = 41) :
+    readNumber ops lex (some attrDelims) (G l (tok ++ (seps ++ d :: rest)) sk) .null =
+      (some v, G (seps.reverse ++ (tok.reverse ++ l)) (d :: rest) sk, .null) := by
+  have hcont := seps_numCont seps hs d rest hd
+  obtain ⟨f, hf1, hf2⟩ : ∃ f, numSplit (tok ++ (seps ++ d :: rest)) = (f, seps ++ d :: rest) ∧ f.text = tok := by
+    rcases htok with hr | hi
+    · obtain ⟨sg, ip, fp, ex, rfl, hsg, hip1, hip, hfp, hex⟩ := isReal_shape tok hr
+      exact numSplit_realText sg ip fp ex _ hsg hip1 hip hfp hex hcont.real
+    · obtain ⟨sg, ds, rfl, hsg, hds1, hds⟩ := isInteger_form tok hi
+      have := numSplit_intText sg ds _ hsg hds1 hds hcont
+      simpa using this
+  obtain ⟨c, u, hcu, hcs⟩ : ∃ c u, tok = c :: u ∧ isSpace c = false := by
+    rcases htok with hr | hi
+    · obtain ⟨c, u, h, hc, _⟩ := isReal_head tok hr; exact ⟨c, u, h, hc⟩
+    · obtain ⟨c, u, h, hc, _⟩ := isInteger_head tok hi; exact ⟨c, u, h, hc⟩
+  obtain ⟨hwf, _, hscan⟩ := numSplit_spec l (tok ++ (seps ++ d :: rest))
+  rw [hf1] at hwf hscan
+  simp only [hf2] at hscan
+  have hconv : ops.conv f.norm.text = .ok v := by
+    unfold FloatOps.conv
+    rw [parse_norm f hwf, hf2]
+    unfold denoteReal at hden
+    rw [hden]; simp only; rw [hv]
+  have hrne : (seps ++ d :: rest).isEmpty = false := by
+    rcases hcont with h | ⟨x, y, hxy, _⟩
+    · simp at h
+    · rw [hxy]; rfl
+  have hcri := cri_seps lex hcfg seps hs (tok.reverse ++ l) rest d false sk Sev.null hd
+  rw [hcu] at hscan hcri ⊢
+  simp only [List.cons_append, readNumber, ws_good0 _ _ _ _ hcs, extractFloatText_G _ _ _ _ hcs]
+  simp only [List.cons_append] at hscan
+  simp only [hscan, hconv, IStream.failed, Bool.or_self, Bool.false_and, Sev.warnIf, Bool.false_eq_true, if_false, hrne,
+    List.append_nil, hcri]
+
+/-- NUMBER elements once the repaired `RealAggregate::ReadValue` reads them with `ReadNumber`: every token of the `integer`
+    or of the `real` grammar whose denotation converts to a double other than the in-band null — `(1, 2.5)` included -/
+theorem ElemReads.number (env : Env F) (hcfg : env.lex.criSkipsComments = true) (hagg : env.cfg.aggrSkipsComments = true)
+    (hnum : env.cfg.numberElemReadsNumber = true)
+    (tok before after : List Byte) (dec : Decimal) (v : F) (htok : isReal tok = true ∨ isInteger tok = true)
+    (hden : denoteReal tok = some dec) (hv : env.ops.ofDecimal dec = some v) (hnn : env.ops.isRealNull v = false)
+    (hb : Seps before) (ha : Seps after) :
+    ElemReads env .number id ⟨tok, before, after, .atom (.real v)⟩ := by
+  obtain ⟨c, u, hcu, hcs, h47, h41, h44⟩ : ∃ c u, tok = c :: u ∧ isSpace c = false ∧ c ≠ 47 ∧ c ≠ 41 ∧ c ≠ 44 := by
+    rcases htok with hr | hi
+    · obtain ⟨c, u, hcu, hcs, h47⟩ := isReal_head tok hr
+      refine ⟨c, u, hcu, hcs, h47, ?_, ?_⟩ <;>
+      · intro h; subst h; rw [hcu] at hr; revert hr; simp [isReal, splitSign, takeDigits, isDigit]
+    · obtain ⟨c, u, hcu, hcs, h47, h41⟩ := isInteger_head47 tok hi
+      obtain ⟨c', u', h', _, _, h44', _⟩ := isInteger_head tok hi
+      rw [hcu] at h'; cases h'
+      exact ⟨c, u, hcu, hcs, h47, h41, h44'⟩
+  refine ⟨hb, ⟨c, u, hcu, hcs, h47, h41, h44⟩, ?_⟩
+  intro l sk d rest hd
+  have hrd := readNumber_tok env.ops env.lex hcfg tok dec v htok hden hv l sk after ha d rest hd
+  rw [hcu] at hrd
+  simp only [List.cons_append] at hrd
+  simp only [hcu, List.cons_append]
+  rw [elemRead_number env hagg hnum l c _ sk hcs h47 h44 h41, hrd]
+  simp only [cri_at_delim env.lex hcfg _ rest d sk hd]
+  simp [realValue, hnn, valueToAtom, hcu]
 
 /-- STRING elements: every literal of the full string grammar (all control directives); the value is the literal in its
     encoded form; the stream's `skipws` flag is left switched off, as `SDAI_String::STEPread` leaves it -/
 theorem ElemReads.string (env : Env F) (hcfg : env.lex.criSkipsComments = true) (hagg : env.cfg.aggrSkipsComments = true)
     (b before after : List Byte) (hbody : StringBody b) (hb : Seps before) (ha : Seps after) :
     ElemReads env .string (fun _ => false) ⟨39 :: (b ++ [39]), before, after, .atom (.str (39 :: (b ++ [39])))⟩ := by
-  refine ⟨hb, ⟨39, b ++ [39], rfl, by decide, by decide, by decide⟩, ?_⟩
+  refine ⟨hb, ⟨39, b ++ [39], rfl, by decide, by decide, by decide, by decide⟩, ?_⟩
   intro l sk d rest hd
   obtain ⟨c, u, hcu, hc39⟩ := seps_head_not_apos after ha d rest hd
   have hshape : (39 :: (b ++ [39])) ++ (after ++ d :: rest) = 39 :: (b ++ 39 :: c :: u) := by rw [← hcu]; simp
   simp only
   rw [hshape]
-  have hs0 : readTokenSeparator (G l (39 :: (b ++ 39 :: c :: u)) sk) = G l (39 :: (b ++ 39 :: c :: u)) sk :=
-    rts_none l 39 _ sk (by decide) (by decide)
-  rw [elemRead_scalar env hagg .string rfl _ _ _ _ hs0 (by rw [scalarNodeRead_string, stringRead_tok b hbody l sk c u hc39])]
+  rw [elemRead_scalar env hagg .string rfl (by intro h; cases h) l 39 _ sk (by decide) (by decide) (by decide) (by decide) _ _ _
+    (by rw [scalarNodeRead_string, stringRead_tok b hbody l sk c u hc39])]
   have hcri := cri_seps env.lex hcfg after ha (39 :: (b.reverse ++ 39 :: l)) rest d false false .null hd
   rw [← hcu, hcri]
   simp
@@ -299,14 +436,12 @@ theorem ElemReads.string (env : Env F) (hcfg : env.lex.criSkipsComments = true) 
 theorem ElemReads.binary (env : Env F) (hcfg : env.lex.criSkipsComments = true) (hagg : env.cfg.aggrSkipsComments = true)
     (hex before after : List Byte) (hne : hex ≠ []) (hhex : hex.all isXDigit = true) (hb : Seps before) (ha : Seps after) :
     ElemReads env .binary id ⟨34 :: (hex ++ [34]), before, after, .atom (.bin hex)⟩ := by
-  refine ⟨hb, ⟨34, hex ++ [34], rfl, by decide, by decide, by decide⟩, ?_⟩
+  refine ⟨hb, ⟨34, hex ++ [34], rfl, by decide, by decide, by decide, by decide⟩, ?_⟩
   intro l sk d rest hd
   have hshape : (34 :: (hex ++ [34])) ++ (after ++ d :: rest) = 34 :: (hex ++ 34 :: (after ++ d :: rest)) := by simp
   simp only
   rw [hshape]
-  have hs0 : readTokenSeparator (G l (34 :: (hex ++ 34 :: (after ++ d :: rest))) sk) = G l (34 :: (hex ++ 34 :: (after ++ d :: rest))) sk :=
-    rts_none l 34 _ sk (by decide) (by decide)
-  rw [elemRead_scalar env hagg .binary rfl _ _ _ _ hs0
+  rw [elemRead_scalar env hagg .binary rfl (by intro h; cases h) l 34 _ sk (by decide) (by decide) (by decide) (by decide) _ _ _
     (by rw [scalarNodeRead_binary, readBinary_tok env.lex hex hne hhex l sk (after ++ d :: rest)])]
   have hcri := cri_seps env.lex hcfg after ha (34 :: (hex.reverse ++ 34 :: l)) rest d false sk .null hd
   have hemp : hex.isEmpty = false := by cases hex <;> simp_all
@@ -319,20 +454,19 @@ theorem ElemReads.enum (env : Env F) (hcfg : env.lex.criSkipsComments = true) (h
     (hne : name ≠ []) (hname : name.all pw = true) (hfind : findName (enumKindOf ty).table (name.map toUpper) = some i)
     (hset : (enumKindOf ty).isUnsetIdx i = false) (hb : Seps before) (ha : Seps after) :
     ElemReads env ty id ⟨46 :: (name ++ [46]), before, after, .atom (.enum i)⟩ := by
-  refine ⟨hb, ⟨46, name ++ [46], rfl, by decide, by decide, by decide⟩, ?_⟩
+  refine ⟨hb, ⟨46, name ++ [46], rfl, by decide, by decide, by decide, by decide⟩, ?_⟩
   intro l sk d rest hd
   have hshape : (46 :: (name ++ [46])) ++ (after ++ d :: rest) = 46 :: (name ++ 46 :: (after ++ d :: rest)) := by simp
   simp only
   rw [hshape]
-  have hs0 : readTokenSeparator (G l (46 :: (name ++ 46 :: (after ++ d :: rest))) sk) = G l (46 :: (name ++ 46 :: (after ++ d :: rest))) sk :=
-    rts_none l 46 _ sk (by decide) (by decide)
   have hsc : scalarNodeRead env ty (G l (46 :: (name ++ 46 :: (after ++ d :: rest))) sk) =
       .ok (.null, valueToAtom (enumValue (enumKindOf ty) (some i) : Value F), G (46 :: (name.reverse ++ 46 :: l)) (after ++ d :: rest) sk) := by
     rcases het with rfl | rfl | ⟨items, rfl⟩ <;>
     · unfold scalarNodeRead
       simp only [enumKindOf] at hfind hset ⊢
       simp only [enumRead_tok env.lex _ false name i hne hname hfind hset l sk (after ++ d :: rest), pure, Except.pure]
-  rw [elemRead_scalar env hagg ty (by rcases het with rfl | rfl | ⟨items, rfl⟩ <;> rfl) _ _ _ _ hs0 hsc]
+  rw [elemRead_scalar env hagg ty (by rcases het with rfl | rfl | ⟨items, rfl⟩ <;> rfl)
+    (by intro h; rcases het with rfl | rfl | ⟨items, rfl⟩ <;> cases h) l 46 _ sk (by decide) (by decide) (by decide) (by decide) _ _ _ hsc]
   have hcri := cri_seps env.lex hcfg after ha (46 :: (name.reverse ++ 46 :: l)) rest d false sk .null hd
   simp only [hcri]
   simp [enumValue, hset, valueToAtom]
@@ -388,14 +522,12 @@ theorem ElemReads.entity (env : Env F) (hcfg : env.lex.criSkipsComments = true) 
     (hhi : ((digitsVal ds 0 : Nat) : Int) ≤ intMax)
     (hfound : refLookup env.lookup tg ((digitsVal ds 0 : Nat) : Int) = .found) (hb : Seps before) (ha : Seps after) :
     ElemReads env (.entity tg) id ⟨35 :: ds, before, after, .atom (.ref ((digitsVal ds 0 : Nat) : Int))⟩ := by
-  refine ⟨hb, ⟨35, ds, rfl, by decide, by decide, by decide⟩, ?_⟩
+  refine ⟨hb, ⟨35, ds, rfl, by decide, by decide, by decide, by decide⟩, ?_⟩
   intro l sk d rest hd
   have hshape : (35 :: ds) ++ (after ++ d :: rest) = 35 :: (ds ++ (after ++ d :: rest)) := by simp
   simp only
   rw [hshape]
-  have hs0 : readTokenSeparator (G l (35 :: (ds ++ (after ++ d :: rest))) sk) = G l (35 :: (ds ++ (after ++ d :: rest))) sk :=
-    rts_none l 35 _ sk (by decide) (by decide)
-  rw [elemRead_scalar env hagg (.entity tg) rfl _ _ _ _ hs0
+  rw [elemRead_scalar env hagg (.entity tg) rfl (by intro h; cases h) l 35 _ sk (by decide) (by decide) (by decide) (by decide) _ _ _
     (by rw [scalarNodeRead_entity, readEntityRef_tok env.lex hcfg _ ds hne hds hhi hfound l sk after ha d rest hd])]
   simp only [cri_at_delim env.lex hcfg _ rest d sk hd]
   simp
@@ -545,5 +677,31 @@ theorem aggrRead_sound (env : Env F) (ty : ElemTy) (s : IStream) (sev : Sev) (es
       have hv' : es = vs := by simpa using hv
       subst hv'
       exact ⟨hsev, hc, _, _, hrun, rfl⟩
+
+/-- with the loop's "missing element" test (the repair of finding `agg:missing-element-read-as-unset`) an element read that
+    reports nothing worse than INCOMPLETE did not start at a delimiter: behind the token separators stands neither `,` nor `)` -/
+theorem elemRead_not_missing (env : Env F) (hm : env.cfg.aggrReportsMissingElement = true) (ty : ElemTy) (s s1 : IStream)
+    (e : Sev) (v : Elem F) (h : elemRead env ty s = .ok (e, v, s1)) (hne : ¬ e.toInt < Sev.incomplete.toInt) :
+    (if env.cfg.aggrSkipsComments then readTokenSeparator s else s).peekC.1 ≠ 44 ∧
+    (if env.cfg.aggrSkipsComments then readTokenSeparator s else s).peekC.1 ≠ 41 := by
+  unfold elemRead at h
+  simp only [elemMissing, hm, if_true, bind, Except.bind, pure, Except.pure] at h
+  generalize (if env.cfg.aggrSkipsComments then readTokenSeparator s else s) = sA at h ⊢
+  cases hc : elemReadCore env ty sA.peekC.2 with
+  | error x => rw [hc] at h; cases h
+  | ok r =>
+    rw [hc] at h
+    simp only [Except.ok.injEq, Prod.mk.injEq] at h
+    by_cases hmiss : (sA.peekC.1 == 44 || sA.peekC.1 == 41) = true
+    · exfalso
+      rw [hmiss] at h
+      simp only [if_true] at h
+      have := greater_toInt_le' r.1 Sev.warning
+      rw [h.1] at this
+      have h0 : Sev.warning.toInt = 0 := rfl
+      have h1 : Sev.incomplete.toInt = 1 := rfl
+      omega
+    · simp at hmiss
+      exact hmiss
 
 end StepModel.P21.AggrLemmas
